@@ -189,3 +189,56 @@ def member_concrete(w, lang):
     s.set("timeout", 5000)
     s.add(r)
     return s.check() == z3.sat
+
+
+def _fixed_width(items):
+    """width of a parsed sequence if every string it matches has the same length, else None"""
+    w = 0
+    for op, av in items:
+        if op in (sc.LITERAL, sc.NOT_LITERAL, sc.ANY, sc.IN):
+            w += 1
+        elif op is sc.AT:
+            continue
+        elif op is sc.SUBPATTERN:
+            x = _fixed_width(av[3])
+            if x is None:
+                return None
+            w += x
+        elif op in (sc.MAX_REPEAT, sc.MIN_REPEAT):
+            lo, hi, sub = av
+            x = _fixed_width(sub)
+            if x is None or lo != hi:
+                return None
+            w += x * lo
+        elif op is sc.BRANCH:
+            ws = {_fixed_width(b) for b in av[1]}
+            if len(ws) != 1 or None in ws:
+                return None
+            w += ws.pop()
+        else:
+            return None
+    return w
+
+
+def group_lifts(pat):
+    """for a pattern that is a top-level concatenation in which every capture group except possibly the last item has a
+    fixed width: { group number -> lift }, where lift(R) is the language of subjects (accepted by re.match) whose group lies in R.
+    The decomposition is then unique, so 'exists a decomposition' coincides with the regex engine's choice."""
+    p = list(sp.parse(pat))
+    anchored = _ends_anchored(p)
+    items = [it for it in p if not (it[0] is sc.AT)]
+    langs = []
+    for idx, (op, av) in enumerate(items):
+        last = idx == len(items) - 1
+        if not last and _fixed_width([(op, av)]) is None:
+            raise NotImplementedError("group extents not determined in %r" % pat)
+        langs.append(_tr([(op, av)], False, False))
+    tail = (z3.Option(NL) if anchored else ALL)
+    out = {}
+    for idx, (op, av) in enumerate(items):
+        if op is sc.SUBPATTERN and av[0] is not None:
+            def lift(R, idx=idx):
+                parts = [z3.Intersect(langs[j], R) if j == idx else langs[j] for j in range(len(items))]
+                return cat(parts + [tail])
+            out[av[0]] = lift
+    return out
